@@ -220,21 +220,31 @@ impl Parser for Markdown {
                     });
                 }
                 pulldown_cmark::Event::Text(text) => {
-                    let chunk_len = text.chars().count();
+                    // `pulldown_cmark` synthesises text that is not in the source (the columns
+                    // left over from a partially consumed tab, with an empty source range):
+                    // never claim more characters than the event's source range holds.
+                    let chunk_len = text
+                        .chars()
+                        .count()
+                        .min(source_str[range.clone()].chars().count());
+
+                    if chunk_len == 0 {
+                        continue;
+                    }
 
                     if let Some(tag) = stack.last() {
                         use pulldown_cmark::Tag;
 
                         if matches!(tag, Tag::CodeBlock(..)) {
                             tokens.push(Token {
-                                span: Span::new_with_len(traversed_chars, text.chars().count()),
+                                span: Span::new_with_len(traversed_chars, chunk_len),
                                 kind: TokenKind::Unlintable,
                             });
                             continue;
                         }
                         if matches!(tag, Tag::Link { .. }) && self.options.ignore_link_title {
                             tokens.push(Token {
-                                span: Span::new_with_len(traversed_chars, text.chars().count()),
+                                span: Span::new_with_len(traversed_chars, chunk_len),
                                 kind: TokenKind::Unlintable,
                             });
                             continue;
